@@ -27,8 +27,11 @@ FUNCS = ["x_rotation", "y_rotation", "z_rotation", "rot_MU", "rot_DELTA", "rot_N
 
 
 def rand_pos(rng):
-    regime = rng.choice(["wide", "wide", "std", "special", "small"])
-    if regime == "wide":
+    regime = rng.choice(["wide", "wide", "std", "special", "small", "turns"])
+    if regime == "turns":
+        # an axis without a hard stop reports many whole turns: "any real degrees"
+        p = [rng.uniform(-180, 180) + 360.0 * rng.choice([0, 0, 1, -1, 7, -25, 57, 58, -58, 100, -360, 1000]) for _ in range(6)]
+    elif regime == "wide":
         p = [rng.uniform(-720, 720) for _ in range(6)]
     elif regime == "std":
         p = [rng.uniform(-180, 180) for _ in range(6)]
@@ -134,7 +137,7 @@ def oracle(ctx, widen=1):
             # the angles may arrive as any real number type: Python int / float, numpy scalars of any width. The value is what counts.
             typ = rng.choice(["float"] * 6 + ["int", "np.float32", "np.int16", "np.int64", "np.float64", "np.uint8"])
             if typ != "float":
-                conv = {"int": lambda x: int(round(x)), "np.float32": np.float32, "np.int16": lambda x: np.int16(round(x)), "np.int64": lambda x: np.int64(round(x)),
+                conv = {"int": lambda x: int(round(x)), "np.float32": np.float32, "np.int16": lambda x: np.int16(max(-32000, min(32000, round(x)))), "np.int64": lambda x: np.int64(round(x)),
                         "np.float64": np.float64, "np.uint8": lambda x: np.uint8(round(x) % 200)}[typ]
                 k = rng.randrange(6)
                 pa = list(p); pa[k] = conv(p[k])
